@@ -462,6 +462,10 @@ impl<'a> Branch<'a> {
         self.key.as_ref()
     }
 
+    pub(crate) fn set_key(&mut self, key: Bytes<'a>) {
+        self.key = key;
+    }
+
     pub(crate) fn key_size(&self) -> usize {
         self.key.size()
     }
